@@ -598,6 +598,9 @@ impl<'a> Parser<'a> {
         let mut duration: ParsedDuration = ParsedDuration::new();
         let mut got_t: bool = false;
         let mut last_had_fraction = false;
+        // Position of the last designator seen (Y < M < W < D < T < H < M < S):
+        // each one can appear once, after those that precede it
+        let mut last_rank: u8 = 0;
 
         loop {
             match self.current {
@@ -618,6 +621,25 @@ impl<'a> Parser<'a> {
 
                     if op_fraction.is_some() {
                         last_had_fraction = true;
+                    }
+
+                    let rank: u8 = match (got_t, self.current) {
+                        (false, 'Y') => 1,
+                        (false, 'M') => 2,
+                        (false, 'W') => 3,
+                        (false, 'D') => 4,
+                        (true, 'H') => 5,
+                        (true, 'M') => 6,
+                        (true, 'S') => 7,
+                        _ => 0,
+                    };
+                    if rank != 0 {
+                        if rank <= last_rank {
+                            return Err(
+                                self.parse_error("Duration units out of order".to_string())
+                            );
+                        }
+                        last_rank = rank;
                     }
 
                     if got_t {
